@@ -467,7 +467,8 @@ fn monitor_mint(out: &mut Out, t: Ramp5, amp: u64, r: [u128; 3], dep: [u128; 3],
         let f1 = big::d3_true_floor(amp as u128 * 3, n);
         // D1/(S+m) >= D0/S for the true values implies (floor D1 + 1) S > floor D0 (S + m)
         if !((f1 + B::ONE) * b(supply) > f0 * (b(supply) + b(mint))) {
-            let allow = dust_allowance(amp, &[r, n]);
+            // the code's D is an integer: a truncation of a few units of D0 is magnified by the growth D1/D0 of the deposit
+            let allow = dust_allowance(amp, &[r, n]) * (B::ONE + if f0.is_zero() { B::ZERO } else { f1 / f0 });
             if (f1 + B::ONE + allow) * b(supply) > f0 * (b(supply) + b(mint)) {
                 out.known_hit("C04", KNOWN_DUST, "true invariant per LP token fell by rounding dust across a deposit", replay.clone());
             } else {
